@@ -118,6 +118,7 @@ func (e *cenv) eval(x Expr) cval {
 	case *EOld:
 		c := *e
 		c.cur = e.old
+		c.frame = nil
 		return c.eval(x.X)
 	case *EUn:
 		v := e.eval(x.X)
@@ -196,6 +197,17 @@ func (e *cenv) readAddr(a *Addr) cval {
 
 func (e *cenv) ident(name string) cval {
 	vc := e.vc
+	// inside a loop context the loop-carried value (phi) of a reassigned
+	// parameter takes precedence; old(...) drops the frame and sees the entry value
+	if e.frame != nil {
+		if v, ok := e.frame.names[name]; ok {
+			if _, isPhi := v.(*ssa.Phi); isPhi {
+				if _, bound := e.frame.vals[v]; bound {
+					return cval{t: e.frame.val(v), typ: v.Type(), sort: vc.sortOf(v.Type())}
+				}
+			}
+		}
+	}
 	if v, ok := e.vars[name]; ok {
 		return v
 	}
@@ -281,7 +293,7 @@ func (e *cenv) object(obj types.Object) cval {
 		}
 		sort := vc.sortOf(o.Type())
 		if _, ok := vc.DB.ConstGlobals[shortPkg(o.Pkg().Path())+"."+o.Name()]; ok {
-			return cval{t: vc.globalRef(o.Pkg().Path(), "@"+o.Name()), sort: sort, typ: o.Type()}
+			return cval{t: vc.constGlobalTerm(o.Pkg().Path(), o.Name(), sort), sort: sort, typ: o.Type()}
 		}
 		hv := vc.heapVar("G!"+shortPkg(o.Pkg().Path())+"."+o.Name(), sort)
 		a := &Addr{Kind: "global", Var: hv, Sort: sort, Typ: o.Type()}
@@ -479,6 +491,10 @@ func ghostSort(s string) string {
 		return "(Array Iface Bool)"
 	case "ifacemap":
 		return "(Array Iface Iface)"
+	case "ifacerow":
+		return "(Array Int Iface)"
+	case "introw":
+		return "(Array Int Int)"
 	}
 	return s
 }
@@ -538,7 +554,7 @@ func (e *cenv) quant(x *EQuant) cval {
 			cv = cval{t: name, sort: "Int"}
 		case "bool":
 			cv = boolv(name)
-		case "intset", "intmap", "seq", "ifaceset", "ifacemap", "slice", "iface", "string":
+		case "intset", "intmap", "seq", "ifaceset", "ifacemap", "ifacerow", "introw", "slice", "iface", "string":
 			cv = cval{t: name, sort: e.paramSort(v.Type)}
 		default:
 			t := e.resolveType(v.Type)
@@ -753,6 +769,45 @@ func (e *cenv) callExpr(x *ECall) cval {
 			return cval{t: a.addr.Ref, sort: "Int"}
 		}
 		return e.fail("addr(%s): not a location", x.Args[0])
+	case "rowof":
+		// the element row (index -> element) of a slice's backing array in the current state
+		if !need(1) {
+			return intv("0")
+		}
+		a := arg(0)
+		sl, ok := a.typ.Underlying().(*types.Slice)
+		if a.typ == nil || !ok || isAggregate(sl.Elem()) {
+			return e.fail("rowof(%s): not a slice of scalars", x.Args[0])
+		}
+		ev := vc.elemVar(sl.Elem())
+		return cval{t: fmt.Sprintf("(select %s (s_base %s))", vc.look(e.cur, ev), a.t), sort: fmt.Sprintf("(Array Int %s)", vc.sortOf(sl.Elem()))}
+	case "view":
+		// abstract content of a byte slice in the current state
+		if !need(1) {
+			return intv("0")
+		}
+		a := arg(0)
+		if a.sort != "Slice" {
+			return e.fail("view(%s): not a slice", x.Args[0])
+		}
+		return cval{t: vc.viewOf(e.cur, a.t), sort: "Int"}
+	case "cat":
+		if !need(2) {
+			return intv("0")
+		}
+		return cval{t: fmt.Sprintf("(seq_cat %s %s)", arg(0).t, arg(1).t), sort: "Int"}
+	case "sub":
+		if !need(3) {
+			return intv("0")
+		}
+		return cval{t: fmt.Sprintf("(seq_sub %s %s %s)", arg(0).t, arg(1).t, arg(2).t), sort: "Int"}
+	case "seqlen":
+		if !need(1) {
+			return intv("0")
+		}
+		return intv(fmt.Sprintf("(seq_len %s)", arg(0).t))
+	case "emptyseq":
+		return cval{t: "seq_empty", sort: "Int"}
 	case "store":
 		// store(a, i, v): functional update of an array-sorted (ghost) value
 		if !need(3) {
@@ -867,6 +922,10 @@ func (e *cenv) paramSort(t string) string {
 		return "(Array Iface Bool)"
 	case "ifacemap":
 		return "(Array Iface Iface)"
+	case "ifacerow":
+		return "(Array Int Iface)"
+	case "introw":
+		return "(Array Int Int)"
 	}
 	if strings.HasPrefix(t, "(") {
 		return t
@@ -894,6 +953,37 @@ func (e *cenv) locsOf(m Expr) []loc {
 		id, _ := x.Fn.(*EIdent)
 		if id == nil || len(x.Args) < 1 {
 			break
+		}
+		if fsd, ok := vc.DB.FrameSets[id.Name]; ok {
+			if len(fsd.Params) != len(x.Args) {
+				e.fail("frameset %s expects %d arguments", id.Name, len(fsd.Params))
+				return nil
+			}
+			c := *e
+			c.vars = map[string]cval{}
+			for k, v := range e.vars {
+				c.vars[k] = v
+			}
+			for i, p := range fsd.Params {
+				a := e.eval(x.Args[i])
+				if t := e.resolveType(p.Type); t != nil {
+					if a.sort == "Iface" && c.vc.sortOf(t) != "Iface" {
+						a = cval{t: vc.unbox("(i_val "+a.t+")", t), sort: vc.sortOf(t), typ: t}
+					} else {
+						a.typ = t
+					}
+				}
+				c.vars[p.Name] = a
+			}
+			c.lets = map[string]Expr{}
+			if pk := vc.pkgOf(fsd.Pkg); pk != nil {
+				c.pkg = pk
+			}
+			var out []loc
+			for _, it := range fsd.Items {
+				out = append(out, c.locsOf(it)...)
+			}
+			return out
 		}
 		switch id.Name {
 		case "elems":
